@@ -201,7 +201,7 @@ def run_generation(path: Path, source: str, *, twice=False, excluded=()):
     rt.clear_caches()
     rt.set_config(target=str(path), current_file=str(path), _excluded_names=list(excluded) or None)
     cfg = None
-    with rt.capture_stderr() as buf:
+    with rt.capture_stderr() as buf, rt.time_limit(30):
         try:
             with enter_file(path):
                 tree = ast.parse(source)
@@ -218,7 +218,7 @@ def run_generation(path: Path, source: str, *, twice=False, excluded=()):
     results = None
     results2 = None
     after = None
-    with rt.capture_stderr() as buf2:
+    with rt.capture_stderr() as buf2, rt.time_limit(30):
         try:
             results = generate_results_from_ir(target_ir=file_ir, import_irs={})
             after = snapshot_ir(file_ir)      # the IR right after the FIRST generation
